@@ -7,12 +7,14 @@ Signed   == {"i8", "i16", "i32", "i64"}
 AllScalars ==
        {Sc(t, v) : t \in IntTypes, v \in {"MIN", "ZERO", "ONE", "MAX"}}
   \cup {Sc(t, "M1") : t \in Signed}
+  \cup {Sc(t, "HALF") : t \in IntTypes \ Signed}          \* 2^(w-1): the least value of the upper half
   \cup {Sc(t, v) : t \in {"f32", "f64"}, v \in {"MIN", "M1", "ZERO", "ONE", "MAX", "TINY", "FRAC"}}
   \cup {Sc("bool", v) : v \in {"ZERO", "ONE"}}
   \cup {Sc("string", v) : v \in {"EMPTY", "S", "ESC"}}
   \cup {Null}
-SmallVals == {Sc("i8", "MIN"), Sc("u64", "MAX"), Sc("f32", "FRAC"), Sc("string", "S"), Sc("bool", "ONE"), Null}
-TinyVals  == {Sc("u64", "MAX"), Sc("string", "S"), Null}
+SmallVals == {Sc("i8", "MIN"), Sc("u64", "MAX"), Sc("u32", "MAX"), Sc("u16", "HALF"), Sc("i64", "MIN"), Sc("f32", "FRAC"),
+              Sc("string", "S"), Sc("bool", "ONE"), Null}
+TinyVals  == {Sc("u32", "MAX"), Sc("string", "S"), Null}
 SomeDflts == {Sc("i32", "M1"), Sc("string", "ESC")}
 AllOps == {"Create", "ObjSet", "ObjGet", "ArrPush", "ArrGet", "ArrPop", "ArrClear", "ArrInsert", "Free", "FreeAgain"}
 ScalarOps == {"Create", "ObjSet", "ObjGet", "ArrPush", "ArrGet", "Construct", "Echo", "Free"}
